@@ -144,6 +144,7 @@ pub struct Mismatch {
 pub struct Outcome {
     pub trace: Vec<String>,
     pub mismatch: Option<Mismatch>,
+    pub bursts: usize,
     pub transfers: usize,
     pub drops: usize,
     pub ops_hash: u64,
@@ -170,6 +171,7 @@ pub struct Interp {
     pub ops: Vec<String>,
     pub transfers: usize,
     pub drops: usize,
+    pub bursts: usize,
 }
 
 impl Interp {
@@ -184,6 +186,7 @@ impl Interp {
             ops: vec![],
             transfers: 0,
             drops: 0,
+            bursts: 0,
         }
     }
 
@@ -554,6 +557,17 @@ impl Interp {
                         .collect();
                     if !cands.is_empty() {
                         let si = *self.rng.pick(&cands);
+                        // now and then a burst on a member of a receiver set: dozens of messages queue up
+                        // behind each other before the set is polled again, then nothing follows
+                        let ch = self.world.senders[si].as_ref().unwrap().1;
+                        if !cfg!(miri) && matches!(self.model.chans[ch].rx, RxLoc::InSet(_)) && self.rng.chance(40) {
+                            let n = self.rng.range(34, 70);
+                            self.bursts += 1;
+                            for _ in 0..n {
+                                self.do_send(si)?;
+                            }
+                            return Ok(true);
+                        }
                         return self.do_send(si).map(|_| true);
                     }
                 },
@@ -794,7 +808,7 @@ impl Interp {
             }
         }
         let ops_hash = hash_of(&self.ops);
-        (Outcome { trace: self.trace, mismatch, transfers: self.transfers, drops: self.drops, ops_hash }, self.world, self.model)
+        (Outcome { trace: self.trace, mismatch, bursts: self.bursts, transfers: self.transfers, drops: self.drops, ops_hash }, self.world, self.model)
     }
 }
 
